@@ -55,14 +55,14 @@ CHECKS = {
  "C06": dict(
   category="fault_enumeration",
   technique="runtime fault injection: byte-offset faults (EOF, reset, write error) injected by the instrumented in-process connection under a real imapserver connection with a counting stub backend; hostile-input workers with a 64 MB stack bound; race detector on",
-  text="For each of 12 valid transcripts (sync and non-sync literals, AUTHENTICATE exchange, IDLE, STARTTLS, implicit TLS, pipelining, long FETCH literal) every client->server byte offset x {EOF, reset} and every server->client offset x {write error} is enumerated (quick: all offsets of 5 transcripts, every 7th of the rest); after each cut the server must close its side, call Session.Close exactly once, stop Idle, and log no panic. Plus mutated/garbage inputs, literal-cap probes (4096 / APPEND limit / sizes >= 2^32; no continuation request may be sent for an over-the-cap literal) and deep-nesting families to 4*10^5 levels.",
+  text="For each of 12 valid transcripts (sync and non-sync literals, AUTHENTICATE exchange, IDLE, STARTTLS, implicit TLS, pipelining, long FETCH literal) every client->server byte offset x {EOF, reset} and every server->client offset x {write error} is enumerated (quick: all offsets of 5 transcripts, every 7th of the rest); after each cut the server must close its side, call Session.Close exactly once, stop Idle, and log no panic. The same enumeration is run with the real in-memory backend behind the protocol layer (2 transcripts: FETCH with long literals / STORE-COPY-EXPUNGE-APPEND-LIST-IDLE), plus a stalled-idler scenario (a client idles and stops reading while another changes its mailbox 5..400 times, then both leave). Plus mutated/garbage inputs, literal-cap probes (4096 / APPEND limit / sizes >= 2^32; no continuation request may be sent for an over-the-cap literal) and deep-nesting families to 4*10^5 levels.",
   design_ref="DESIGN.md §3 C06",
   note="Backstops (40 s) are orders of magnitude above observed latencies; only literals are subject to the 4096-byte cap; stalls (peer silent but connected) are outside the property."),
 
  "C07": dict(
   category="exploration",
   technique="runtime trace monitor: harness-owned MailboxTracker mirrored by a unique-id message list; client views reconstructed only from wire output of real server connections whose stub Poll delegates to SessionTracker; Decode/EncodeSeqNum probed for every number after every step; race detector on",
-  text="Every history of length <= L over a 13-operation alphabet (appends of +1/+2, expunges, flag updates with and without source, mailbox flags, polls with and without expunge permission on 2 sessions) on a 3-message mailbox, plus seeded random histories with 1..4 sessions created/closed at arbitrary points. Decides: emitted updates are exactly the expected per-session event prefix, in order, correctly numbered, no EXPUNGE when disallowed, Poll(true) makes the view equal the mailbox, and both translations agree with the mirror for every number.",
+  text="Every history of length <= L over a 13-operation alphabet (appends of +1/+2, expunges, flag updates with and without source, mailbox flags, polls with and without expunge permission on 2 sessions) on a 3-message mailbox, plus seeded random histories with 1..4 sessions created/closed at arbitrary points, plus long-queue histories (120..319 operations while one session is never polled, then polled once). Decides: emitted updates are exactly the expected per-session event prefix, in order, correctly numbered, no EXPUNGE when disallowed, Poll(true) makes the view equal the mailbox, and both translations agree with the mirror for every number.",
   design_ref="DESIGN.md §3 C07",
   note="Sequential histories (one poll at a time); DecodeSeqNum probed on 1..|V|, EncodeSeqNum on 1..|M|."),
 
@@ -90,14 +90,14 @@ CHECKS = {
  "C12": dict(
   category="exploration",
   technique="runtime trace monitor: scripted conformant server on the instrumented in-process connection; after every scripted line the vconn park signal (reader blocked with nothing pending) is the barrier at which Client.State()/Mailbox() are compared with a reference interpretation of the transcript; per-command exactly-once completion, status and data accounting; race detector on",
-  text="Random sets of 2..6 unambiguous pipelined commands with random outcomes (OK with/without text, NO/BAD with/without codes), answered in random order-preserving interleavings with unilateral EXISTS/EXPUNGE/FLAGS/PERMANENTFLAGS in between; state sequences around SELECT OK/NO/BAD, [CLOSED], UNSELECT/CLOSE, LOGOUT; tagged refusal of a synchronising literal with another command in flight; FETCH with '*' sets.",
+  text="Random sets of 2..6 unambiguous pipelined commands with random outcomes (OK with/without text, NO/BAD with/without codes), answered in random order-preserving interleavings with unilateral EXISTS/EXPUNGE/FLAGS/PERMANENTFLAGS in between; state sequences around SELECT OK/NO/BAD, [CLOSED], UNSELECT/CLOSE, LOGOUT; tagged refusal of a synchronising literal with another command in flight; FETCH with '*' sets; long-lived connections of 1500..4000 commands answered in the empty forms FLAGS () / LIST () / PERMANENTFLAGS ().",
   design_ref="DESIGN.md §3 C12",
   note="During a SELECT in progress the client may report either the old mailbox unchanged or no mailbox. Trusts the reference interpreter in checks/c12."),
 
  "C18": dict(
   category="exploration",
   technique="runtime trace monitor: the client's output on the instrumented in-process connection is tokenised by the independent scanner and checked against the capability set the scripted server had advertised / enabled; the global ordered event log decides literal synchronisation (no payload byte before '+', none after a tagged refusal); race detector on",
-  text="Dialogues for 7 capability sets x string arguments from 16 classes in every command that takes strings x APPEND sizes around 4096 x SEARCH with non-ASCII text x four server reactions to synchronising literals ('+' at once, '+' after unrelated untagged data once the client is parked, tagged NO, tagged BAD) x five server answers to ENABLE (granted, OK with empty ENABLED, OK without ENABLED, NO, BAD; UTF8=ACCEPT counts as enabled only when listed in an ENABLED response), ending with a usability probe.",
+  text="Dialogues for 7 capability sets x string arguments from 16 classes in every command that takes strings x APPEND sizes around 4096 x SEARCH with non-ASCII text x 9 capability sets incl. UTF8=ONLY x a capability downgrade announced during IDLE with a SEARCH queued from a second goroutine (each command judged against the set in force when its first byte was written) x four server reactions to synchronising literals ('+' at once, '+' after unrelated untagged data once the client is parked, tagged NO, tagged BAD) x five server answers to ENABLE (granted, OK with empty ENABLED, OK without ENABLED, NO, BAD; UTF8=ACCEPT counts as enabled only when listed in an ENABLED response), ending with a usability probe.",
   design_ref="DESIGN.md §3 C18",
   note="Capability sets are constant within a dialogue; UTF8=ACCEPT counts from the command after the ENABLED response."),
 
@@ -123,20 +123,20 @@ CHECKS = {
  "C08": dict(
   category="exploration",
   technique="online trace checker over the raw response stream of every connection (independent tokenizer): per-connection announced view rebuilt from EXISTS/EXPUNGE/FETCH, invariants asserted on every line, view compared after every NOOP with the real mailbox content listed through a fresh view on a probe connection; sequential multi-session histories against the real server + in-memory backend; race detector on",
-  text="Seeded histories of 60 commands (APPEND/SELECT/EXAMINE/STORE/EXPUNGE/UID EXPUNGE/COPY/MOVE/FETCH/SEARCH/NOOP/IDLE/CLOSE, UID and non-UID forms, numbers, ranges, '*', 'n:*', '$') issued one at a time by 1..4 sessions over shared mailboxes with NOOP probability 3/8/20 % so that views are stale most of the time. Refutes: a sequence number outside 1..announced count (incl. 0), EXPUNGE during non-UID FETCH/STORE/SEARCH, EXISTS below the announced count, a UID inconsistent with its position, a reconstructed view that differs from the mailbox after NOOP.",
+  text="Seeded histories of 60 commands (APPEND/SELECT/EXAMINE/STORE/EXPUNGE/UID EXPUNGE/COPY/MOVE/FETCH/SEARCH/NOOP/IDLE/CLOSE, UID and non-UID forms, numbers, ranges, '*', 'n:*', '$') issued one at a time by 1..4 sessions over shared mailboxes with NOOP probability 3/8/20 % so that views are stale most of the time; every 10th history has a sleeper session that selects and then stays silent for 320 commands of the others before its NOOP. Refutes: a sequence number outside 1..announced count (incl. 0), EXPUNGE during non-UID FETCH/STORE/SEARCH, EXISTS below the announced count, a UID inconsistent with its position, a reconstructed view that differs from the mailbox after NOOP.",
   design_ref="DESIGN.md §3 C08",
   note="Commands are not overlapped (C14 does that); IDLE pushes are consumed when the session leaves IDLE."),
 
  "C09": dict(
   category="exploration",
-  technique="reference-model monitor: sequential multi-session histories over raw connections against the real server + in-memory backend; every response parsed by the independent tokenizer and compared with a reference mailbox model (UID allocation, UIDVALIDITY history, flags, expunge/move sets, STATUS, LIST with an independent wildcard matcher, SEARCH through the independent reference matcher, FETCH sections / partials / BODYSTRUCTURE / ENVELOPE against MIME trees the messages were generated from); crash oracle = missing tagged reply, closed connection or panic in the server log; race detector on",
-  text="Seeded histories of 50 commands (CREATE/DELETE/RENAME/SUBSCRIBE/LIST/LSUB/STATUS/APPEND/SELECT/EXAMINE/STORE/COPY/MOVE/EXPUNGE/UID EXPUNGE/SEARCH/FETCH/NOOP/IDLE/CLOSE) by 1..3 sessions over 2..4 mailboxes; search keys of every kind with NOT/OR/group nesting and RETURN options incl. SAVE/$; sections with part paths, HEADER.FIELDS(.NOT), MIME, TEXT, partials with offsets and sizes up to 2^63-1; LIST patterns with references, multiple patterns, SUBSCRIBED and STATUS return options; every 5th history appends malformed messages (crash probing only); final audit of every mailbox through a fresh connection.",
+  technique="reference-model monitor: sequential multi-session histories (and concurrent histories whose outcome is interleaving-independent because every message, identified by a unique token, is touched by its owner only) over raw connections against the real server + in-memory backend; every response parsed by the independent tokenizer and compared with a reference mailbox model (UID allocation, UIDVALIDITY history, flags, expunge/move sets, STATUS, LIST with an independent wildcard matcher, SEARCH through the independent reference matcher, FETCH sections / partials / BODYSTRUCTURE / ENVELOPE against MIME trees the messages were generated from); crash oracle = missing tagged reply, closed connection or panic in the server log; race detector on",
+  text="Seeded histories of 50 commands (CREATE/DELETE/RENAME/SUBSCRIBE/LIST/LSUB/STATUS/APPEND/SELECT/EXAMINE/STORE/COPY/MOVE/EXPUNGE/UID EXPUNGE/SEARCH/FETCH/NOOP/IDLE/CLOSE) by 1..3 sessions over 2..4 mailboxes; search keys of every kind with NOT/OR/group nesting and RETURN options incl. SAVE/$; sections with part paths, HEADER.FIELDS(.NOT), MIME, TEXT, partials with offsets and sizes up to 2^63-1; LIST patterns with references, multiple patterns, SUBSCRIBED and STATUS return options; every 5th history appends malformed messages (crash probing only); every 25th history is 500 commands long; final audit of every mailbox through a fresh connection. Concurrent phase: 2..8 sessions x 25..54 commands (APPEND, UID STORE, STORE by own-view sequence number, UID COPY, UID MOVE, \\Deleted + UID EXPUNGE, UID FETCH, UID SEARCH by token) with GOMAXPROCS in {1,2,4,16} and yields at the lock boundaries of imapserver/imapmemserver; APPENDUID/COPYUID/FETCH/SEARCH compared on-line with the owner's model, every mailbox audited at quiescence (UIDs strictly increasing, each message present once with its owner's flags and text).",
   design_ref="DESIGN.md §3 C09",
   note="Latitude granted where RFC 3501/9051 leave the outcome open is listed in the evidence assumptions; DELETE of a selected mailbox, RENAME of INBOX and write commands under EXAMINE are not generated."),
  "C14": dict(
   category="exploration",
-  technique="Go race detector + Goodlock-style lock-order graph (instance level, gate-lock aware) + per-command watchdog decided on two goroutine dumps, under stress workloads of concurrent sessions with schedule perturbation: seeded yields injected at every lock/unlock site of packages imapserver and imapmemserver by source-level instrumentation generated from the current tree (cmd/lockgen, go build -overlay), GOMAXPROCS varied",
-  text="Runs of 2..8 concurrently running sessions x 20..44 random commands over 2..3 shared mailboxes (COPY/MOVE in both directions, FETCH with literals, STORE, EXPUNGE, APPEND, SEARCH, LIST/LSUB with STATUS, CREATE/DELETE/RENAME/SUBSCRIBE of scratch and shared mailboxes, IDLE with DONE or abrupt disconnect, CLOSE) in profiles mixed / copy-storm / namespace. Decides on the executions produced: every command gets its tagged reply, no lock-order cycle taken by different goroutines without a common gate (reported even if the run did not hang), zero deduplicated race reports with imapserver / imapmemserver frames, no panic in the server log.",
+  technique="Go race detector + Goodlock-style lock-order graph (instance level, gate-lock aware, sync.Mutex and sync.RWMutex incl. recursive read-lock detection) + per-command watchdog decided on two goroutine dumps, under stress workloads of concurrent sessions with schedule perturbation: seeded yields injected at every lock/unlock site of packages imapserver and imapmemserver by source-level instrumentation generated from the current tree (cmd/lockgen, go build -overlay), GOMAXPROCS varied",
+  text="Runs of 2..8 concurrently running sessions x 20..44 random commands over 2..3 shared mailboxes (COPY/MOVE in both directions, FETCH with literals, STORE, EXPUNGE, APPEND, SEARCH, LIST/LSUB with STATUS, CREATE/DELETE/RENAME/SUBSCRIBE of scratch and shared mailboxes, IDLE with DONE or abrupt disconnect, CLOSE) in profiles mixed / copy-storm / namespace / stalled-idler (one session idles and stops reading while the others change its mailbox hundreds of times). Decides on the executions produced: every command gets its tagged reply, no lock-order cycle taken by different goroutines without a common gate (reported even if the run did not hang), zero deduplicated race reports with imapserver / imapmemserver frames, no panic in the server log.",
   design_ref="DESIGN.md §3 C14",
   note="Sees only the interleavings produced; evidence counts lock acquisitions, order edges, lock instances and distinct fingerprints. A watchdog expiry while server goroutines are still running is recorded as an inconclusive run, not a violation."),
 }
